@@ -105,6 +105,7 @@ type sched struct {
 	now      time.Duration
 	timers   []*timer
 	closed   map[uintptr]bool
+	keep     []interface{}
 	races    []string
 	raceSeen map[string]bool
 	hb       *hbState
